@@ -19,6 +19,7 @@ BYTES = ('bytes',)
 STR = ('str',)
 ANY = ('any',)
 CALLABLE = ('callable',)
+BKEY = ('bkey',)     # a byte string used only as (part of) a dictionary key: an injective integer code of it
 BITS = ('bits',)     # a non-negative python int used as a bit set: index -> bool
 
 
@@ -72,6 +73,8 @@ def tyname(ty):
     k = ty[0]
     if k in ('int', 'bool', 'real', 'none', 'bytes', 'str', 'any', 'callable', 'bits'):
         return k
+    if k == 'bkey':
+        return 'int'
     if k == 'ref':
         return 'ref'
     if k == 'enum':
@@ -89,7 +92,7 @@ def tyname(ty):
 
 def sort_of(ty):
     k = ty[0]
-    if k in ('int', 'enum', 'ref', 'dict', 'list', 'callable'):
+    if k in ('int', 'enum', 'ref', 'dict', 'list', 'callable', 'bkey'):
         return I
     if k == 'bool':
         return Bo
@@ -128,6 +131,7 @@ def sort_of(ty):
 
 
 DEFS = {}
+INPUT_BYTES = {}     # id -> constant: symbolic input byte strings (their DEFS entry only states normal form)
 _OPAQUE = {}
 
 
@@ -245,6 +249,18 @@ class VBits(Val):
         return self._term
 
 
+class VBKey(Val):
+    """key code of a byte string (bytes_id is injective: A-BKEY)"""
+    ty = ('bkey',)
+
+    def __init__(self, t):
+        self.t = t
+
+
+def bytes_id(b):
+    return z3.Function('bytes_id', BytesS, I)(b.t)
+
+
 class VRaw(Val):
     """a bare z3 term of arbitrary sort (ghost values)"""
     ty = ('raw',)
@@ -305,6 +321,9 @@ class VBytes(Val):
                 self._term = BytesS.mkb(ln, arr)
                 return self._term
             c = z3.Const(fresh_name('bdef'), BytesS)
+            import os, traceback
+            if os.environ.get('PYVC_DEBUG_BDEF'):
+                traceback.print_stack(limit=8)
             DEFS[c.get_id()] = (c, c == exact, [BytesS.blen(c) == self.len])
             self._term = c
         return self._term
@@ -465,6 +484,8 @@ def from_term(ty, t):
         return VReal(t)
     if k == 'bits':
         return VBits(term=t)
+    if k == 'bkey':
+        return VBKey(t)
     if k == 'none':
         return VNone()
     if k == 'bytes':
@@ -515,6 +536,8 @@ def coerce(v, ty):
             raise Unsupported('opt coercion %s -> %s' % (v.ty, ty))
         inner = coerce(v, ty[1])
         return VOpt(ty[1], s.constructor(1)(to_term(inner)))
+    if k == 'bkey' and isinstance(v, VBytes):
+        return VBKey(bytes_id(v))
     if k == 'bits' and isinstance(v, VInt):
         sb = getattr(v, 'single_bit', None)
         if sb is not None:
